@@ -55,3 +55,42 @@ package backend
 //@   assert at call getConnFromBalancer: localSlaveReadPriority == LocalSlaveReadPrefer ==> (arg2 == slavesInfo.LocalBalancer || arg2 == slavesInfo.RemoteBalancer)
 //@   assert at call getConnFromBalancer: (localSlaveReadPriority != LocalSlaveReadForce && localSlaveReadPriority != LocalSlaveReadPrefer) ==> arg2 == slavesInfo.GlobalBalancer
 //@   assert at call getConnFromBalancer: arg2 != nil
+
+// ---------------------------------------------------------------- C39 complete results or an error
+// helpers of the row reader never touch the result being built (assumed frames, listed in the evidence)
+//@ func (*DirectConnection).readPacket
+//@   assigns dc.pkgErr
+//@   ensures ret1 == nil ==> len(ret0) <= 1<<40
+//@ func (*DirectConnection).handleErrorPacket
+//@   assigns \nothing
+//@   ensures ret0 != nil
+//@ func (*DirectConnection).drainResults
+//@   assigns dc.pkgErr
+//@ trusted (github.com/XiaoMi/Gaea/mysql.RowData).Parse
+//@   params recv, f, binary
+//@   pure-call
+//@ func (*DirectConnection).isEOFPacket
+//@   may-panic when len(data) == 0
+//@   assigns \nothing
+//@   ensures ret0 <==> (data[0] == mysql.EOFHeader && len(data) <= 5)
+
+// ghost: the packet stream ended with an EOF packet during this call
+//@ ghost sawEOF bool
+//@ property C39: (*DirectConnection).readResultRows, (*DirectConnection).isEOFPacket
+
+// The rows of one result: delivered completely (EOF seen) unless the caller is told that more rows exist; abandoned
+// with the row-limit error only when strictly more than maxRows rows arrived; never limited when maxRows is 0.
+// (an empty packet makes data[0] panic: recovered by the session loop, not modelled)
+//@ func (*DirectConnection).readResultRows
+//@   requires dc != nil && result != nil && result.Resultset != nil && len(result.RowDatas) == 0
+//@   may-panic when true
+//@   ghost-update at entry: sawEOF = false
+//@   ghost-update after call isEOFPacket#0: sawEOF = ret0
+//@   loop 0 invariant maxRows > 0 ==> len(result.RowDatas) <= maxRows
+//@   loop 0 invariant fresh(result.RowDatas) || len(result.RowDatas) == 0
+//@   loop 0 invariant 0 <= bufLength && bufLength <= mysql.MaxPayloadLen && !sawEOF
+//@   loop 0 assigns result.Resultset.RowDatas, result.Status, dc.status, dc.moreRowExists, dc.pkgErr
+//@   assert at call drainResults#0: maxRows > 0 && len(result.RowDatas) > maxRows
+//@   ensures case complete: err == nil && !dc.moreRowExists ==> sawEOF
+//@   ensures case limit:    err == nil && maxRows > 0 ==> len(result.RowDatas) <= maxRows
+//@   ensures case partial:  err == nil && dc.moreRowExists ==> bufLength > mysql.MaxPayloadLen
